@@ -1188,19 +1188,31 @@ class Cache:
 
         if not self.statistics and update_column is None:
             # Fast path, no transaction necessary.
+            missing = ENOVAL
 
-            rows = self._sql(select, (db_key, raw, time.time())).fetchall()
+            while True:
+                rows = self._sql(
+                    select, (db_key, raw, time.time())
+                ).fetchall()
 
-            if not rows:
-                return default
+                if not rows:
+                    return default
 
-            ((rowid, db_expire_time, db_tag, mode, filename, db_value),) = rows
+                (
+                    (rowid, db_expire_time, db_tag, mode, filename, db_value),
+                ) = rows  # noqa: E127
 
-            try:
-                value = self._disk.fetch(mode, filename, db_value, read)
-            except IOError:
-                # Key was deleted before we could retrieve result.
-                return default
+                try:
+                    value = self._disk.fetch(mode, filename, db_value, read)
+                except IOError:
+                    # Key was deleted or its value was replaced before we
+                    # could retrieve result. Look again unless the same file
+                    # is missing twice.
+                    if filename == missing:
+                        return default
+                    missing = filename
+                else:
+                    break
 
         else:  # Slow path, transaction required.
             cache_hit = (
